@@ -454,19 +454,64 @@ func isBufHelper(fn *ssa.Function) bool {
 func runStartEnd(c *core.Ctx) {
 	P := c.P
 	n := 0
-	for _, fn := range libFuncs(c) {
+	isStartInvoke := func(call *ssa.Call) bool {
+		return call.Call.IsInvoke() && call.Call.Method.Name() == "ServeNostrStart"
+	}
+	// endWrapper: a private function that does nothing but end the session on the base it is
+	// handed (`simpleMiddlewareEnd(ctx, base)`, possibly with a deferred recover): the index of that
+	// parameter, or -1
+	endWrapper := func(g *ssa.Function) int {
+		if !an.PrivateHelper(g) {
+			return -1
+		}
+		idx := -1
+		an.Instrs(g, func(in ssa.Instruction) {
+			call, ok := in.(*ssa.Call)
+			if !ok || !call.Call.IsInvoke() || call.Call.Method.Name() != "ServeNostrEnd" {
+				return
+			}
+			par, isPar := call.Call.Value.(*ssa.Parameter)
+			if !isPar {
+				return
+			}
+			for _, rb := range an.ReturnBlocks(g) {
+				if !(call.Block() == rb || call.Block().Dominates(rb)) {
+					return
+				}
+			}
+			for i, q := range g.Params {
+				if q == par {
+					idx = i
+				}
+			}
+		})
+		return idx
+	}
+	// isEnd: the call ends the session on the base at basePath (read in the caller's terms with pathOf)
+	isEnd := func(call *ssa.CallCommon, basePath string, pathOf func(ssa.Value) string) bool {
+		if call.IsInvoke() {
+			return call.Method.Name() == "ServeNostrEnd" && pathOf(call.Value) == basePath
+		}
+		if g := an.StaticCallee(call); g != nil {
+			if i := endWrapper(g); i >= 0 && i < len(call.Args) {
+				return pathOf(call.Args[i]) == basePath
+			}
+		}
+		return false
+	}
+	// startWrapper: a private function that starts the session on the base it is handed and returns
+	// (ctx, err) without deferring the End itself (`simpleMiddlewareStart(ctx, base)`): the index of that
+	// parameter, or -1
+	startIn := func(fn *ssa.Function) *ssa.Call {
 		var start *ssa.Call
 		an.Instrs(fn, func(in ssa.Instruction) {
-			if call, ok := in.(*ssa.Call); ok && call.Call.IsInvoke() && call.Call.Method.Name() == "ServeNostrStart" {
+			if call, ok := in.(*ssa.Call); ok && isStartInvoke(call) {
 				start = call
 			}
 		})
-		if start == nil {
-			continue
-		}
-		n++
-		c.CountFuncs(1)
-		basePath := an.PathOf(start.Call.Value)
+		return start
+	}
+	hasDeferredEnd := func(fn *ssa.Function, basePath string) *ssa.Defer {
 		var dEnd *ssa.Defer
 		an.Instrs(fn, func(in ssa.Instruction) {
 			d, ok := in.(*ssa.Defer)
@@ -478,15 +523,120 @@ func runStartEnd(c *core.Ctx) {
 				return
 			}
 			an.Instrs(mc.Fn.(*ssa.Function), func(in2 ssa.Instruction) {
-				if call, ok := in2.(*ssa.Call); ok && call.Call.IsInvoke() && call.Call.Method.Name() == "ServeNostrEnd" && an.PathOf(call.Call.Value) == basePath {
+				if call, ok := in2.(*ssa.Call); ok && isEnd(&call.Call, basePath, an.PathOf) {
 					dEnd = d
 				}
 			})
 		})
-		props := []string{"C13"}
-		if true {
-			props = []string{"C13", "C19"}
+		return dEnd
+	}
+	startWrapper := func(g *ssa.Function) int {
+		if !an.PrivateHelper(g) || g.Signature.Results().Len() != 2 {
+			return -1
 		}
+		st := startIn(g)
+		if st == nil {
+			return -1
+		}
+		par, isPar := st.Call.Value.(*ssa.Parameter)
+		if !isPar || hasDeferredEnd(g, an.PathOf(par)) != nil {
+			return -1
+		}
+		for i, q := range g.Params {
+			if q == par {
+				return i
+			}
+		}
+		return -1
+	}
+	props := []string{"C13", "C19"}
+	for _, fn := range libFuncs(c) {
+		// ---- a start wrapper: once the base has started, every way out either hands the started
+		// session to the caller (ctx, nil) or ends it
+		if wi := startWrapper(fn); wi >= 0 {
+			st := startIn(fn)
+			basePath := an.PathOf(st.Call.Value)
+			n++
+			c.CountFuncs(1)
+			var bad []string
+			np := 0
+			for _, rb := range an.ReturnBlocks(fn) {
+				paths, ok := an.PathsTo(fn, rb, 2048)
+				if !ok {
+					c.Unknown(props, fname(c, fn), "start-wrapper", P.Pos(fn.Pos()), "too many paths")
+					return
+				}
+				ret := an.LastInstr(rb).(*ssa.Return)
+				for _, p := range paths {
+					if !an.Feasible(p) || !p.Contains(st.Block()) {
+						continue
+					}
+					np++
+					started := false // the path took the start's `err == nil` edge
+					for _, cd := range p.Conds() {
+						cd = an.NormCond(cd)
+						if b, ok := cd.V.(*ssa.BinOp); ok && an.IsNilConst(b.Y) && (b.Op == token.EQL) == cd.True {
+							if ex, ok := an.LoadedValue(b.X).(*ssa.Extract); ok && ex.Tuple == ssa.Value(st) && ex.Index == 1 {
+								started = true
+							}
+							if resolveRet(b.X, p) != b.X {
+								if ex, ok := resolveRet(b.X, p).(*ssa.Extract); ok && ex.Tuple == ssa.Value(st) && ex.Index == 1 {
+									started = true
+								}
+							}
+						}
+					}
+					if !started {
+						continue
+					}
+					ended := false
+					for _, b := range p {
+						for _, in := range b.Instrs {
+							if call, ok := in.(*ssa.Call); ok && isEnd(&call.Call, basePath, an.PathOf) {
+								ended = true
+							}
+						}
+					}
+					rvs := an.ReturnValues(ret)
+					hands := len(rvs) == 2 && an.IsNilConst(resolveRet(rvs[1], p))
+					if !ended && !hands {
+						bad = append(bad, "a return at "+P.Pos(ret.Pos())+" reports an error after ServeNostrStart succeeded without ending the session")
+					}
+					if ended && hands {
+						bad = append(bad, "a return at "+P.Pos(ret.Pos())+" hands out a session it has already ended")
+					}
+				}
+			}
+			c.CountPaths(np)
+			c.Check(len(bad) == 0 && np > 0, props, fname(c, fn), "start-wrapper", P.Pos(st.Pos()),
+				"once ServeNostrStart has succeeded, every way out either hands the started session to the caller (nil error) or calls ServeNostrEnd on the same base",
+				strings.Join(bad, "; ")+": the caller, seeing an error, does not defer ServeNostrEnd, so per-session state (gauges, subscription sets) is never released")
+			continue
+		}
+		// ---- the function that runs the session: Start (direct or through a start wrapper), then the
+		// deferred End
+		var start *ssa.Call
+		basePath := ""
+		an.Instrs(fn, func(in ssa.Instruction) {
+			call, ok := in.(*ssa.Call)
+			if !ok {
+				return
+			}
+			if isStartInvoke(call) {
+				start, basePath = call, an.PathOf(call.Call.Value)
+			}
+			if g := an.StaticCallee(&call.Call); g != nil {
+				if wi := startWrapper(g); wi >= 0 && wi < len(call.Call.Args) {
+					start, basePath = call, an.PathOf(call.Call.Args[wi])
+				}
+			}
+		})
+		if start == nil {
+			continue
+		}
+		n++
+		c.CountFuncs(1)
+		dEnd := hasDeferredEnd(fn, basePath)
 		if dEnd == nil {
 			c.Bad(props, fname(c, fn), "defer ServeNostrEnd", P.Pos(start.Pos()), "ServeNostrStart is not paired with a deferred ServeNostrEnd on the same base: per-session state (gauges, subscription sets) is never released")
 			continue
